@@ -39,3 +39,12 @@ Theorem C13_pre_fix_deadlock :
                                   PNext (mkProblem [] [] []); PSpawn 7; PRun 0] = Some s /\
             tasks s = [mkTask 7 TWaiting] /\ run_task s 0 = None /\ answer s 7 = None.
 Proof. exact pre_fix_deadlock. Qed.
+
+(* over any number of solves and cancellations on one solver, for every schedule:
+   metadata obtained earlier is never requested again, and nothing is requested
+   while a request for it is in flight (abandoned requests may be re-issued) *)
+From Resolvo Require Import Async.CacheProtoOnce.
+
+Theorem C13_protocol_never_asks_twice : forall es s,
+  prun drop_fixed p0 es = Some s -> drops_end_solve false es = true -> Once (hist s).
+Proof. exact proto_never_asks_twice. Qed.
